@@ -8,6 +8,9 @@ META = {
 }
 
 def run(ctx):
+    import os
+    if os.environ.get("VERIF_SKIP_MC") == "1":   # development aid for mutation runs only
+        return conformance(ctx)
     # 1. design level: exhaustive small scope
     ctx.tlc_mc("MC_IxKey.tla", "IxKey_quick2.cfg", timeout=300)
     ctx.tlc_mc("MC_IxKey.tla", "IxKey_quick3.cfg", timeout=300)
@@ -19,6 +22,10 @@ def run(ctx):
     # without trimming (the pinned commit's behaviour) is not the key of the leading fields
     ctx.tlc_mc("MC_IxKey.tla", "IxKey_dev_swap.cfg", timeout=300, expect_violation="OrderPreserved", count=False)
     ctx.tlc_mc("MC_IxKey.tla", "IxKey_dev_trunc.cfg", timeout=300, expect_violation="TruncIsKeyOfLeading", count=False)
+    conformance(ctx)
+
+
+def conformance(ctx):
     # 2. conformance: the real functions on the same scope + random tuples
     drv = ctx.go_build("ixkey")
     nrandom = 20000 if ctx.thorough() else 600
